@@ -15,7 +15,7 @@ import (
 )
 
 func TestMain(m *testing.M) {
-	vstat.Rule("Generated histories of inc(v)/count/advance(d) on RollingCounter and IncA/IncB/Ratio on RatioCounter under a frozen clock; N in 1..20, resolution from {1s,1.5s,2s,2.5s,3s,7s,10s,1min} or a random ns-granular duration in [1s,100s], start instant with random phase, steps from {sub-resolution, ~resolution, exact multiples, several slots, >= one window, several windows}. Oracle: reference list of all increments; at every read sum(age <= (N-1)r) <= Count <= sum(age < Nr); Ratio within the interval implied by the two brackets and exactly 0 when both upper sums are 0. Non-trivial: (resolution != 1s or an idle gap > one window or increments in >= 3 slots) and lower != upper at >= 1 read.")
+	vstat.Rule("Generated histories of inc(v)/count/advance(d) on RollingCounter and IncA/IncB/Ratio on RatioCounter under a frozen clock; N in 1..20, resolution from {1s,1.5s,2s,2.5s,3s,7s,10s,1min} or a random ns-granular duration in [1s,100s], start instant with random phase, steps from {sub-resolution, ~resolution, exact multiples, several slots, >= one window, several windows}. Oracle: reference list of all increments; at every read sum(age <= (N-1)r) <= Count <= sum(age < Nr); Ratio within the interval implied by the two brackets and exactly 0 when both upper sums are 0. Non-trivial: (resolution != 1s or an idle gap > one window or increments in >= 3 slots) and lower != upper at >= 1 read. Histories may also append another counter (same or other geometry) filled at that instant: its events count as increments made now.")
 	vstat.Main(m.Run)
 }
 
